@@ -198,10 +198,15 @@ def land(*cs):
 
 
 def walk(t):
-    """All subterms (pre-order)."""
+    """All distinct subterms (pre-order).  Terms are DAGs (shared subterms are the
+    same object), so each object is visited once."""
     stack = [t]
+    seen = set()
     while stack:
         x = stack.pop()
+        if id(x) in seen:
+            continue
+        seen.add(id(x))
         yield x
         if isinstance(x, tuple):
             kids = x[1:] if (x and isinstance(x[0], str)) else x
@@ -210,31 +215,45 @@ def walk(t):
                     stack.append(ch)
 
 
-def subst(t, mapping):
-    """Replace subterms by mapping (dict term->term), bottom-up, re-normalising."""
+def subst(t, mapping, _memo=None):
+    """Replace subterms by mapping (dict term->term), bottom-up, re-normalising.
+    Memoised on object identity (terms are DAGs)."""
+    if _memo is None:
+        _memo = {}
     if not isinstance(t, tuple):
+        return t
+    k = id(t)
+    if k in _memo:
+        return _memo[k][1]
+    r = _subst(t, mapping, _memo)
+    _memo[k] = (t, r)      # keep t alive so that ids stay unique
+    return r
+
+
+def _subst(t, mapping, memo):
+    if len(t) == 0:
+        return t
+    h = t[0]
+    if isinstance(h, str) and h in ("num", "str", "bool", "opaque", "none"):
         return t
     try:
         if t in mapping:
             return mapping[t]
     except TypeError:
         pass
-    if len(t) == 0:
-        return t
-    h = t[0]
     if not isinstance(h, str):
-        return tuple(subst(x, mapping) for x in t)
+        return tuple(subst(x, mapping, memo) for x in t)
     if len(t) == 1:
         return t
-    if h in ("num", "sym", "str", "bool", "opaque", "none"):
+    if h == "sym":
         return t
     if h == "call":
-        return ("call", t[1]) + tuple(subst(x, mapping) for x in t[2:])
+        return ("call", t[1]) + tuple(subst(x, mapping, memo) for x in t[2:])
     if h == "attr":
-        return ("attr", subst(t[1], mapping), t[2])
+        return ("attr", subst(t[1], mapping, memo), t[2])
     if h == "cmp":
-        return ("cmp", t[1], subst(t[2], mapping), subst(t[3], mapping))
-    kids = tuple(subst(x, mapping) if isinstance(x, tuple) else x for x in t[1:])
+        return ("cmp", t[1], subst(t[2], mapping, memo), subst(t[3], mapping, memo))
+    kids = tuple(subst(x, mapping, memo) if isinstance(x, tuple) else x for x in t[1:])
     if h == "add":
         return add(*kids)
     if h == "mul":
